@@ -58,6 +58,68 @@ CLAIMED.update({
         design_ref='DESIGN.md 4 C10'),
 })
 
+CLAIMED.update({
+    'C02': dict(
+        engine='schedex',
+        technique='stateless model checking of the real server threads: exhaustive delay-bounded schedule enumeration x worker release orders x identity-allocator answers',
+        text='Real Server with thread servlets in every composition (single 1-2 workers, sequential, ensemble with/without '
+             'fail_fast, switch, batching) driven by 2-3 concurrent callers and a stream. Stage outputs are tagged with '
+             'stage and input so any cross-talk is visible. An environment thread releases gated worker calls in every '
+             'order; all schedules with <= d deviations (d=1-2 quick, 2-3 thorough). The ids harness rebinds id() in the '
+             'server module to a model allocator that answers fresh-or-any-recycled (free choice, fully enumerated).',
+        note='thread servlets (process servlets are outside the scheduler); timers fire only when nothing can run; '
+             'deadlines are virtual and generous so a TimeoutError is a lost response',
+        design_ref='DESIGN.md 4 C02'),
+    'C04': dict(
+        engine='schedex',
+        technique='stateless model checking: exhaustive delay-bounded schedule enumeration x enumerated fault sites and failing subsets',
+        text='Same real server harness as C02 with injected failures: failing subsets (1-2 of 3-4 requests) x site (call, '
+             'preprocess, ensemble member A/B/both, stage index) x fail_fast x batching (failing and healthy requests share '
+             'a batch or not depending on the explored schedule) x stream(return_exceptions). Oracle: own exception type '
+             'and args with the traceback naming the failure site, EnsembleError per the documented rule carrying only '
+             'this request\'s member outcomes, every other request correct, exactly the members of the failing call() '
+             'invocation fail.',
+        note='thread servlets only here; the text form of tracebacks across a process hop is the subject of C15',
+        design_ref='DESIGN.md 4 C04'),
+    'C06': dict(
+        engine='schedex',
+        technique='stateless model checking: state invariant (backlog <= capacity) at every scheduling point of every explored schedule',
+        text='Real Server (capacity 1-2) with 2-3 racing callers, mixed backpressure, failures, slow (gated) workers and an '
+             'abandoned stream. len(ledger) <= capacity is evaluated at EVERY scheduling point of every schedule with <= d '
+             'deviations (d=2 on the capacity-1 core, 1 elsewhere; thorough +1). End oracles: immediate ServerBacklogFull '
+             'with backpressure, bounded enqueue wait on the virtual clock (timers in deadline order), backlog 0 when idle. '
+             'A separate harness lets deadlines expire at any point (timers=all).',
+        note='elapsed-time assertions only in the harness where timers fire in deadline order; AsyncServer not explored here',
+        design_ref='DESIGN.md 4 C06'),
+    'C07': dict(
+        engine='schedex',
+        technique='stateless model checking with timer deviations: deadline expiry placed at every scheduling point of the gather thread',
+        text='A call with a finite virtual deadline races the delivery of its own (gated) result; with timers=all the '
+             'explorer fires the deadline at every scheduling point (one deviation each, d=2 on the core harness), next to '
+             'an unbounded caller and a later request; plus a stream consumer closing after k outputs. Oracle: abandoned '
+             'call times out or gets its own result, all others correct, gather thread alive until shutdown, exit returns.',
+        note='slowness is bounded: a timer more than 50 virtual seconds away never fires early, so unbounded deadlines stay unbounded',
+        design_ref='DESIGN.md 4 C07'),
+    'C17': dict(
+        engine='schedex',
+        technique='stateless model checking of the real threads: exhaustive delay-bounded schedule enumeration, two rounds separated by renew()',
+        text='Real IterableQueue over queue.Queue with 1-2 suppliers x 1-3 consumers x bounded/unbounded queue, two rounds with '
+             'renew(); put_end/__next__/renew traced line by line; all schedules with <= 2 deviations (3 thorough). Oracle '
+             'per round: multiset received == put, no None delivered, every consumer ends, renew succeeds, exactly one end '
+             'marker left. ResponsiveQueue: blocked get/put raise StopRequested within the wait interval for every stop moment.',
+        note='thread queues; the multiprocessing-queue variant (feeder-thread asynchrony) is not explored',
+        design_ref='DESIGN.md 4 C17'),
+    'C19': dict(
+        engine='schedex',
+        technique='exhaustive enumeration of arrival-gap vectors on a virtual clock x delay-bounded schedules',
+        text='Real EagerBatcher on a real queue.Queue; a producer thread sleeps environment-chosen virtual gaps from '
+             '{0, w/2, w, 3w/2} before each of 0-5 items and the end marker (every gap vector enumerated), batch_size 1-3, '
+             'wait 0 / w, None and custom end markers, plus one scheduling deviation for n<=4. Exact timing oracle on the '
+             'virtual clock.',
+        note='the consumer of the batches takes no time between batches',
+        design_ref='DESIGN.md 4 C19'),
+})
+
 PENDING_REASON = 'check not built yet in this session (planned, see DESIGN.md section 4); not claimed until it runs'
 
 
